@@ -865,6 +865,23 @@ def ratio_rejection(repo: Repo) -> RuleRun:
                     fn.node,
                     key=f"{ratio}:{bad:g}",
                 )
+    # a total and a cell-to-cell expansion that point in opposite directions (cells growing along the edge, the last one smaller than
+    # the first) cannot be realised either: the logarithm quotient is negative, which truncation towards zero would turn into count 1
+    both = [f_ for f_ in relation_functions(repo) if {"total_expansion", "c2c_expansion"} <= set(f_.params)]
+    for fn in both:
+        for te, cc in ((0.95, 1.1), (0.5, 1.1), (1.2, 0.9), (3.0, 0.5)):
+            args = [te if p == "total_expansion" else cc if p == "c2c_expansion" else ORDINARY[p] for p in fn.params]
+            kind, out = run(fn, args)
+            n += 1
+            r.check(
+                kind == "raises",
+                fn,
+                f"total {te:g} against cell-to-cell {cc:g} rejected",
+                f"{fn.name}({', '.join(f'{p}={a:g}' for p, a in zip(fn.params, args))}) returns {out!r}: a total expansion of {te:g} with a cell-to-cell expansion of {cc:g} contradict each other "
+                "(no number of cells realises both), yet a count is handed out - truncation towards zero turns the negative quotient of the logarithms into one cell",
+                fn.node,
+                key=f"contradiction:{te:g}:{cc:g}",
+            )
     for vname in ("_validate_total_expansion", "_validate_c2c_expansion"):
         vf = repo.func(f"grading.relations.{vname}")
         for good in (0.5, 1.0, 2.0):
